@@ -499,19 +499,31 @@ def main(run):
     run.notes.update({"stages": stages, "verdict_classes": verdicts, "tags": tagc, "lookup_types": lts,
                       "postings_observed": n_posts, "postings_converted": n_conv, "permuted_file_runs": n_perm,
                       "files_with_self_pair": n_self, "metadata_records_target_to_target": n_listed_unapplied})
-    # ---- open known findings: replay their witnesses
+    # ---- F25 (repaired): a converted amount beyond the number type must end in an error — no panic, no figure
     for f in findings:
-        if f.get("status") == "open" and f.get("class") == "conversion_overflow_panic":
+        if f.get("class") == "conversion_overflow_panic":
             price = '[price]\ndb-path = "prices.db"\nlookup-type = "last-price"'
             rq = {"conf": {"toml": J.make_toml(price=price, rcomm='commodity = "EUR"'), "pricedb": f["witness_pricedb"]},
-                  "inputs": [{"text": f["witness_journal"]}], "ops": [{"op": "txns"}, {"op": "balance"}, {"op": "register"}]}
+                  "inputs": [{"text": f["witness_journal"]}], "ops": [{"op": "txns"}, {"op": "balance"}, {"op": "register"},
+                                                                     {"op": "text_balance"}, {"op": "text_register"}, {"op": "text_balgrp"}]}
             rr = harness_run([rq])[0] or {}
             res = rr.get("results") or []
+            run.cov["evaluations"] += 1
+            bad = None
             if rr.get("stage") in ("panic", "abort") or any(x.get("panic") for x in res[1:]):
-                run.known_finding(f["what"])
-            else:
-                run.violation("known finding %s no longer reproduces: model of the finding and implementation disagree" % f["id"],
-                              {"finding": f, "outcome": rr}, found_input=False)
+                bad = "the reports panic"
+            elif rr.get("stage") == "done" and any("ok" in x for x in res[1:]):
+                bad = "a report is produced although amount x rate is not representable"
+            if f.get("status") == "open":
+                if bad == "the reports panic":
+                    run.known_finding(f["what"])
+                else:
+                    run.violation("known finding %s no longer reproduces: model of the finding and implementation disagree" % f["id"],
+                                  {"finding": f, "outcome": rr}, found_input=False)
+            elif bad:
+                run.violation("price conversion of an amount whose value exceeds the 96-bit number type: %s (expected: an error)" % bad,
+                              {"journal": f["witness_journal"], "price_file": f["witness_pricedb"], "report_commodity": "EUR",
+                               "lookup_type": "last-price", "outcome": rr})
     import t03_text   # extra stage (extension T03, DESIGN section 12): the price-file TEXT against PriceText.parse_pricedb + load_db
     t03_text.run_text_stage(run, n=(90 if run.tier == "quick" else 1500))
     import t05_text   # extra stage (extension T05): register / balance / balance-group TEXT of these cases under conversion and rounding
